@@ -27,6 +27,7 @@ ENTRY = dict(
             "LIFETIME, judge of multi-call observations (C08L.specL)": "executable judge applied to the implementation; one-call segments are judged by C08.spec (holds proved), the lifetime wrapper itself is tied by correspondence only",
             "set requests carry the requested value and no other": "theorem (tx_value) + correspondence (incl. late encoding of queued requests)",
             "at most `retries` set requests": "theorem (tx_count)",
+            "retries <= 0 (zero or NEGATIVE, outside the statement's 0..3): nothing transmitted, False in the call's own step": "theorem (exhausted_budget; the driver reads a negative budget through SetM.budgetOf) + correspondence (random histories with retries -3, -1, 4, 6, 7 and timeouts 0.1 s, 0.333 s, 1.1 s, 4.321 s; route sweep with (-2, 1.2 s) and (7, 0.1 s))",
             "one per `timeout` interval": "theorem (tx_spacing, tx_spacing_exact)",
             "each followed by a re-read request iff versions are not tracked": "theorem (refresh_per_attempt; refresh_iff_tracked, refresh_iff_untracked for a constant flag)",
             "the set request addresses the parameter it was called on (index, sub-device, thermostat offset, schedule number)": "correspondence (asserted by the rig on 20 parameter addresses)",
